@@ -2,11 +2,12 @@
    TableMaintainer over a prepared routing table, on a network that answers questionable-node pings for a
    chosen set of contacts and never answers find_node.
 
-     mpass <idx> root=<hex20> nosec=<0|1> booted=<0|1> nodes=<node>,<node>... answers=<ans>,<ans>... fanswers=<ans>,...
+     mpass <idx> root=<hex20> nosec=<0|1> booted=<0|1> nodes=<node>,<node>... answers=<ans>,<ans>... oanswers=<ans>,... fanswers=<ans>,...
         => boot:<addrs> [ping:<i>:<addrs>] [refresh:<i>:<addrs>] ... break:<i>|done after:<entry>;<entry>...
        <node>  = slot/idhex/iphex/port/query-age-ns/response-age-ns/failed/class   (age -1: never; class g|q|b as the
                  implementation classifies the entry: checked against the model's classification first)
-       <ans>   = idhex/iphex/port          (answers: contacts that answer a ping; fanswers: contacts - fewer than K - that
+       <ans>   = idhex/iphex/port          (answers: entries whose host answers a ping under the entry's id; oanswers: entries whose host
+                 answers under ANOTHER id; fanswers: contacts - fewer than K - that
                  answer find_node with an empty node list)
        <addrs> = iphex:port;iphex:port...  sorted, `-` when empty     <entry> = idhex/iphex:port/class/failed
      Model: RunMaint.rm_boot (who the initial bootstrap asks) and RunMaint.rm_pass = Maint.pass with the silent
@@ -51,9 +52,12 @@ let () =
           | [id; ip; port] -> (n_of_hex id, addr_key { ip = bytes_of_hex ip; port = n_of_dec port })
           | _ -> failwith ("mpass fanswer " ^ t)) (lst (g "fanswers")) in
       let booted = g "booted" = "1" in
+      let others = List.map (fun t -> match split_on '/' t with
+          | [id; ip; port] -> (n_of_hex id, addr_key { ip = bytes_of_hex ip; port = n_of_dec port })
+          | _ -> failwith ("mpass oanswer " ^ t)) (lst (g "oanswers")) in
       if !bad_class <> "" then "REJECT class-differs " ^ !bad_class
       else begin
-        let (phases, final) = rm_pass c now_ns booted answering fans nodes in
+        let (phases, final) = rm_pass c now_ns booted answering others fans nodes in
         let ptoks = List.filter_map (fun p ->
             let (tag, (i, l)) = rm_phase_view p in
             match int_of_n tag with
